@@ -102,6 +102,8 @@ def stub_modules():
         where=J.where,
         broadcast_to=J.broadcast_to,
         floor=J.floor,
+        squeeze=J.squeeze,
+        log1p=X.log1p,
         ceil=J.ceil,
         minimum=J.minimum,
         maximum=J.maximum,
